@@ -625,7 +625,7 @@ func (e *tokEnv) runBlock(pending []chain.M, w *chain.TraceWriter) {
 			// member of a multi-message transaction that failed as a whole (chain.BundlePct):
 			// whatever it did was rolled back; the specification knows no such event and
 			// treats it as a rejection without effect
-			ev["name"] = "TxFailed"
+			ev["_orig"], ev["name"] = ev["name"], "TxFailed"
 		}
 		ev["ok"] = r.OK
 		ev["panic"] = r.Panic
